@@ -88,6 +88,9 @@ META["rule"] += (
 META["rule"] += (
     " " + "Added after the sixth round: 15 % of the history steps continue on a copy.copy / deep copy / pickle round trip of the object; every set_window compares the caller's dictionary before and after.")
 
+META["rule"] += (
+    " " + 'Added after the eighth round: the caller edits the returned observable (then selects the global window) and the dictionary returned by window().')
+
 KEYS = ("time_min", "time_max", "lat_min", "lat_max", "lon_min", "lon_max")
 
 
@@ -344,6 +347,20 @@ def observe(ctx, d, m, cls, kind, cid, case, climate, snap=None, prev=None):
                            "want": {k: float(v) for k, v in want.items()},
                            "bad": bad}, cid)
             good = False
+        elif isinstance(w, dict):
+            # the dictionary is the caller's (it is made to be edited and
+            # handed to set_window): editing it does not edit the report
+            for k_ in list(w):
+                w[k_] = float(w[k_]) - 7.5
+            ok, w2 = ctx.call(d.window)
+            ctx.evals()
+            ctx.count("window_dict_edited_by_caller")
+            if not ok or [k for k in KEYS if k not in w2
+                          or float(w2[k]) != float(want[k])]:
+                ctx.violation(sig("window", "changed-by-the-caller's-edit-"
+                                  "of-the-dictionary-it-returned"),
+                              {**case, "lib": repr(w2)[:300]}, cid)
+                good = False
     s = {"obs": obs.tobytes(), "t": np.asarray(G["time"]).tobytes(),
          "lat": np.asarray(G["lat"]).tobytes(),
          "lon": np.asarray(G["lon"]).tobytes(), "shape": obs.shape}
@@ -618,6 +635,21 @@ def run_history(ctx, Data, ClimateData, GeoGrid, cid, r, climate):
             else:
                 ctx.count("clone_not_possible:" + how)
         u = r.random()
+        if r.random() < 0.15:
+            # the caller works in place on the array observable() handed out
+            # (rescales it): the next selection is made from the record, and
+            # the array given to the constructor is the caller's untouched
+            okd, dirty = ctx.call(d.observable)
+            if okd and isinstance(dirty, np.ndarray) and \
+                    dirty.flags.writeable and dirty.dtype.kind == "f":
+                dirty *= 3.0
+                dirty += 1.0
+                ctx.count("observable_edited_by_caller_before_next_window")
+                u = 0.1          # the global window is selected next
+                if not np.array_equal(obs, obs0):
+                    ctx.violation(f"{cls}.observable:hands-out-the-caller's-"
+                                  f"input-array:{kind}", case, cid)
+                    return
         if u < 0.2:
             op = "global"
         elif u < 0.3:
